@@ -22,7 +22,7 @@ from common import REPO, cz, cnat, clist, cstr
 
 LEVEL = "proof"
 THEOREMS = "Props/C07.v"
-EXTRA_TARGETS = ("Gen/GeomFormulas.vo",)
+EXTRA_TARGETS = ("Gen/GeomFormulas.vo", "Geom/Periodic.vo")
 EXTS = ["_geometry"]
 
 ANGLE_H = "mdtraj/geometry/src/kernels/anglekernels.h"
@@ -199,15 +199,49 @@ def parse_kernel(text, idx_array, width, n_pairs):
             raise TranslateError("pairs entry %r" % item)
         pos.append(b)
     pairs = [(pos[2 * k], pos[2 * k + 1]) for k in range(n_pairs)]
-    # the three displacement kernels must be called with the same layout
+    # The displacement primitives: one call each of dist / dist_mic / dist_mic_triclinic, all with the same layout.
+    # Two call forms are understood:
+    #   whole trajectory  prim(xyz, pairs, [box_matrix,] &distances[0], &displacements[0], n_frames, n_atoms, N)
+    #                     (the primitive advances xyz and box_matrix frame by frame: frame j is treated with cell j)
+    #   one frame         prim(X, pairs, [B,] distances, displacements, 1, n_atoms, N) inside `for (int j ...)`, where
+    #                     X must be xyz + 3*n_atoms*j and B is box_matrix + 9*j (cell j) or box_matrix (cell 0!)
+    # The frame of the cell handed to each periodic primitive becomes part of the generated term (box_frame).
+    ptrs = {}
+    for mp in re.finditer(r"const\s+float\s*\*\s*(\w+)\s*=\s*(\w+)\s*\+\s*([^;]+);", body):
+        factors = sorted(f.strip() for f in re.sub(r"\(\s*(?:size_t|long|int|unsigned)\s*\)", "", mp.group(3)).split("*"))
+        ptrs[mp.group(1)] = (mp.group(2), factors)
     calls = re.findall(r"\b(dist_mic_triclinic|dist_mic|dist)\s*\(([^;]*)\)\s*;", body)
     if sorted(c[0] for c in calls) != ["dist", "dist_mic", "dist_mic_triclinic"]:
         raise TranslateError("expected one call each of dist, dist_mic, dist_mic_triclinic")
+    modes = set()
+    box_frame = {}
     for name, args in calls:
         a = [x.strip() for x in args.split(",")]
-        want = ["xyz", "pairs"] + (["box_matrix"] if name != "dist" else []) + ["&distances[0]", "&displacements[0]", "n_frames", "n_atoms", str(n_pairs)]
-        if a != want:
+        nb = 1 if name != "dist" else 0
+        if len(a) != 7 + nb or a[1] != "pairs" or a[-2] != "n_atoms" or a[-1] != str(n_pairs):
             raise TranslateError("call of %s has arguments %s" % (name, a))
+        if a[0] == "xyz" and a[-3] == "n_frames" and a[2 + nb:4 + nb] == ["&distances[0]", "&displacements[0]"]:
+            if nb and a[2] != "box_matrix":
+                raise TranslateError("call of %s: cell argument %s" % (name, a[2]))
+            modes.add("whole")
+            box_frame[name] = "j"
+        elif a[-3] == "1" and a[2 + nb:4 + nb] in (["distances", "displacements"], ["&distances[0]", "&displacements[0]"]):
+            if ptrs.get(a[0]) != ("xyz", ["3", "j", "n_atoms"]):
+                raise TranslateError("call of %s: coordinates argument %s is not xyz + 3*n_atoms*j" % (name, a[0]))
+            if nb:
+                if a[2] == "box_matrix":
+                    box_frame[name] = "0"
+                elif ptrs.get(a[2]) == ("box_matrix", ["9", "j"]):
+                    box_frame[name] = "j"
+                else:
+                    raise TranslateError("call of %s: cell argument %s" % (name, a[2]))
+            modes.add("frame")
+        else:
+            raise TranslateError("call of %s has arguments %s" % (name, a))
+    if len(modes) != 1:
+        raise TranslateError("the three displacement calls use different layouts")
+    mode = modes.pop()
+    jcoef = 3 * n_pairs if mode == "whole" else 0
     stmts = c_statements(body)
     vecs = {}
     rest = []
@@ -223,7 +257,7 @@ def parse_kernel(text, idx_array, width, n_pairs):
                 if c[0] != "idx" or c[1] != "displacements":
                     raise TranslateError("fvec4 constructor %r" % s)
                 a, b = lin_index(c[2], "j")
-                if a != 3 * n_pairs:
+                if a != jcoef:
                     raise TranslateError("fvec4 constructor %r" % s)
                 offs.append(b)
             if offs[0] % 3 or offs != [offs[0], offs[0] + 1, offs[0] + 2]:
@@ -233,13 +267,13 @@ def parse_kernel(text, idx_array, width, n_pairs):
             continue
         if inner:
             rest.append(s)
-    return pairs, vecs, rest
+    return pairs, vecs, rest, {"mode": mode, "ortho": box_frame["dist_mic"], "tric": box_frame["dist_mic_triclinic"]}
 
 
-def dist_ref(e, n_pairs):
+def dist_ref(e, n_pairs, whole=True):
     if e[0] == "idx" and e[1] == "distances":
         a, b = lin_index(e[2], "j")
-        if a == n_pairs and 0 <= b < n_pairs:
+        if a == (n_pairs if whole else 0) and 0 <= b < n_pairs:
             return b
     return None
 
@@ -247,8 +281,8 @@ def dist_ref(e, n_pairs):
 class Emit:
     """typed symbolic values: ('vec', text) | ('scal', text, is_poly)"""
 
-    def __init__(self, mode, n_pairs):
-        self.mode, self.n_pairs = mode, n_pairs
+    def __init__(self, mode, n_pairs, whole=True):
+        self.mode, self.n_pairs, self.whole = mode, n_pairs, whole
         self.env = {}
 
     def num(self, txt):
@@ -265,7 +299,7 @@ class Emit:
             return self.env[e[1]]
         if e[0] == "num":
             return ("scal", self.num(e[1]))
-        k = dist_ref(e, self.n_pairs)
+        k = dist_ref(e, self.n_pairs, self.whole)
         if k is not None:
             return ("scal", "d%d" % (k + 1))
         if e[0] == "call" and e[1] == "cross" and len(e[2]) == 2:
@@ -287,11 +321,11 @@ class Emit:
 
 
 def translate_dihedral_kernel(text):
-    pairs, vecs, rest = parse_kernel(text, "quartets", 4, 3)
+    pairs, vecs, rest, callinfo = parse_kernel(text, "quartets", 4, 3)
     if sorted(vecs.values()) != [0, 1, 2]:
         raise TranslateError("three displacement vectors expected")
     defs = {}
-    em = Emit("Z", 3)
+    em = Emit("Z", 3, callinfo["mode"] == "whole")
     for name, k in vecs.items():
         em.env[name] = ("vec", "b%d" % (k + 1))
     result = None
@@ -316,14 +350,14 @@ def translate_dihedral_kernel(text):
         raise TranslateError("statement outside the grammar: %r" % s)
     if result is None or result[0] not in defs or result[1] not in defs:
         raise TranslateError("no atan2f result")
-    return {"pairs": pairs, "defs": defs, "order": order, "result": result}
+    return {"pairs": pairs, "defs": defs, "order": order, "result": result, "calls": callinfo}
 
 
 def translate_angle_kernel(text):
-    pairs, vecs, rest = parse_kernel(text, "triplets", 3, 2)
+    pairs, vecs, rest, callinfo = parse_kernel(text, "triplets", 3, 2)
     if sorted(vecs.values()) != [0, 1]:
         raise TranslateError("two displacement vectors expected")
-    em = Emit("Z", 2)
+    em = Emit("Z", 2, callinfo["mode"] == "whole")
     for name, k in vecs.items():
         em.env[name] = ("vec", "b%d" % (k + 1))
     num = den = None
@@ -364,7 +398,7 @@ def translate_angle_kernel(text):
         i += 1
     if num is None or sorted(clips) != [-1, 1] or fn != "acos":
         raise TranslateError("angle kernel incomplete (cosine, two clips, acos expected)")
-    return {"pairs": pairs, "num": num, "den": den}
+    return {"pairs": pairs, "num": num, "den": den, "calls": callinfo}
 
 
 # =====================================================================================
@@ -566,6 +600,14 @@ def translate_sources(read):
     out.append(emit_module("Zg", "Z_scope", "Z", "ZV", dk, ak, pyd, pya, False))
     out.append("")
     out.append(emit_module("Rg", "R_scope", "R", "RV", dk, ak, pyd, pya, True))
+    out.append("")
+    out.append("(* which frame's cell each periodic kernel hands to dist_mic (orthorhombic) / dist_mic_triclinic when it")
+    out.append("   computes frame j (whole-trajectory calls let the primitive advance xyz and box_matrix together) *)")
+    out.append("Module Calls.")
+    for nm, k in (("dih", dk), ("ang", ak)):
+        for cell in ("ortho", "tric"):
+            out.append("Definition %s_box_frame_%s (j : nat) : nat := %s." % (nm, cell, "j" if k["calls"][cell] == "j" else "0%nat"))
+    out.append("End Calls.")
     out.append("")
     out.append("Module Tables.")
     out.append("Local Open Scope string_scope.")
@@ -928,6 +970,47 @@ def run_geom(ctx, cases):
                                      tags={"kind": "angle_value", "opt": op["opt"], "periodic": op["periodic"], "cell": gen["cell"]})
                             failed = True
                             break
+    # trajectory-level model (Geom/Periodic.v on top of the C05 minimum-image model, with the cell-of-frame indices
+    # read from the kernels): bond vectors computed IN Coq by the PBC code paths, compared with brute force
+    traj_d, traj_a = [], []
+    budget = 40 if ctx.tier == "quick" else 400
+    for e, (k, kind, idx, ops) in enumerate(entries):
+        X, box, tri, quad = data[k]
+        if box is None or len(traj_d) + len(traj_a) >= budget:
+            continue
+        for opt in (True, False):
+            for tup in idx[:2]:
+                prs = ([(tup[0], tup[1]), (tup[1], tup[2]), (tup[2], tup[3])] if kind == "dihedrals"
+                       else [(tup[1], tup[0]), (tup[1], tup[2])])
+                exp = []
+                for f in range(X.shape[0]):
+                    bv = bond_vectors(X[f], box[f], prs, True)
+                    if bv is None:
+                        exp = None
+                        break
+                    if kind == "dihedrals":
+                        b1, b2, b3 = bv
+                        exp.append("(%s, %s, %s)" % (cz(det3(b1, b2, b3)), cz(idot(b1, b2) * idot(b2, b3) - idot(b1, b3) * idot(b2, b2)), cz(idot(b2, b2))))
+                    else:
+                        u, v = bv
+                        exp.append("(%s, %s, %s)" % (cz(idot(u, v)), cz(idot(u, u)), cz(idot(v, v))))
+                if exp is None:
+                    continue
+                frames = clist([clist([coq_vec(tuple(int(w) for w in a)) for a in X[f]]) for f in range(X.shape[0])])
+                boxes = clist(["(mkbox %s %s %s)" % tuple(coq_vec(r) for r in box[f]) for f in range(X.shape[0])])
+                case = "(%s, true, %s, %s, %s)" % ("true" if opt else "false", frames, boxes, clist([cnat(a) for a in tup]))
+                (traj_d if kind == "dihedrals" else traj_a).append((case, "Some %s" % clist(exp)))
+    for nm, fn, lst in (("dihedral", "dih_traj_case", traj_d), ("angle", "ang_traj_case", traj_a)):
+        if not lst:
+            continue
+        bad, errs = ctx.coq_mismatches(["MD.PBC.Model", "MD.Geom.Periodic"], ("traj_case", "option (list (Z * Z * Z))"), "obs_list_eqb", fn, lst, shard=50)
+        if errs:
+            ctx.break_("correspondence:coqc-evaluation", "\n".join(errs))
+        elif bad:
+            ctx.break_("correspondence:periodic-%s-model-vs-brute-force" % nm,
+                       "trajectory-level Gallina model (PBC displacement paths + kernel formulas + cell-of-frame indices) differs from "
+                       "the brute-force minimum-image oracle, e.g. expected %s" % lst[bad[0]][1][:300])
+        notes["model_evaluations_periodic_%s" % nm] = notes.get("model_evaluations_periodic_%s" % nm, 0) + len(lst)
     # the Gallina observables (from the kernels' text) against the independent integer formulas
     for nm, fn, lst in (("dihedral", "ZG.dih_case", coq_dih), ("angle", "ZG.ang_case", coq_ang)):
         if not lst:
@@ -1087,7 +1170,7 @@ def replay(ctx, rec):
         translate(ctx)
     except Exception as e:
         ctx.log("translator degraded:", e)
-    ok, log = ctx.make(["Geom/Model.vo", "Geom/Topo.vo"])
+    ok, log = ctx.make(["Geom/Model.vo", "Geom/Topo.vo", "Geom/Periodic.vo"])
     if not ok:
         ctx.break_("replay:model-build", log)
     c = rec["case"]
